@@ -202,7 +202,16 @@ def call_ext(I: Any, name: str, args: List[Term], kwargs: Dict[str, Term], st: A
         return to_int(I, args, kwargs, st, ctx, node)
     if name == "builtins.int.from_bytes":
         order = kwargs.get("byteorder", args[1] if len(args) > 1 else c("big"))
-        return int_from_bytes(args[0], order, st, ctx, node)
+        u_ = int_from_bytes(args[0], order, st, ctx, node)
+        sg_ = kwargs.get("signed")
+        if sg_ is not None and not (is_c(sg_) and sg_[1] is False):
+            if not (is_c(sg_) and sg_[1] is True):
+                return top("int.from_bytes with a non-constant signed flag")
+            w_ = T.const_width(T.to_seq(args[0])) if _textlike(args[0]) and T.to_seq(args[0]) is not None else None
+            if w_ is None:
+                return top("signed int.from_bytes of bytes of unknown length")
+            return signed_view(u_, 4 * int(w_))
+        return u_
     if name == "builtins.str":
         if not args:
             return c("")
@@ -860,7 +869,20 @@ def struct_unpack(I: Any, args: List[Term], st: Any, ctx: Any, node: ast.AST) ->
         return top("struct.unpack not understood")
     order, items = parsed
     st.may_raise("struct.error", ("cmp", "!=", length(I, args[1], st, ctx, node), c(items[0][1])), ctx.loc(node))
-    return int_from_bytes(args[1], c("little" if order == "<" else "big"), st, ctx, node)
+    u_ = int_from_bytes(args[1], c("little" if order == "<" else "big"), st, ctx, node)
+    if items[0][0] in "bhilq":
+        return signed_view(u_, 8 * items[0][1])
+    return u_
+
+
+def signed_view(u: Term, bits: int) -> Term:
+    """Two's-complement reading of an unsigned value of `bits` bits: u when it is below 2**(bits-1), else u - 2**bits."""
+    if is_c(u) and isinstance(u[1], int):
+        return c(u[1] - (1 << bits) if u[1] >= (1 << (bits - 1)) else u[1])
+    r = T.int_range(u)
+    if r is not None and r[1] is not None and r[1] < (1 << (bits - 1)) and r[0] is not None and r[0] >= 0:
+        return u
+    return app("signed", [u, c(bits)])
 
 
 def int_from_bytes(v: Term, order: Term, st: Any, ctx: Any, node: ast.AST) -> Term:
@@ -2059,6 +2081,8 @@ def call_method(I: Any, recv: Term, name: str, args: List[Term], kwargs: Dict[st
                 res = ("sym", st.fresh(f"{base}.is_closing"), "bool")
             elif name == "create_datagram_endpoint":
                 st.may_raise("OSError", ("ext", "bind fails (address in use)", st.fresh("ext")), where)
+                # the await can also end in an exception that is not an Exception: the task is cancelled while binding
+                st.may_raise("asyncio.CancelledError", ("ext", "cancelled while binding", st.fresh("ext")), where)
                 res = ("tuple", (("sym", st.fresh("transport"), ("extobj", "transport")), ("sym", st.fresh("protocol"), ("extobj", "protocol"))))
             elif name == "wait_closed":
                 res = c(None)
